@@ -106,7 +106,7 @@ def fshort(body):
 # They are reported under the depending property as `<P>.D:<rule>`; the reason is part of the message.
 
 DEPENDS = {
-    "C02": [("c05", ["C05.R1", "C05.R2", "C05.R3"], "a region may be deleted only if its element is ready: the expiry decision"),
+    "C02": [("c05", ["C05.R1", "C05.R2", "C05.R3", "C05.R4"], "a region may be deleted only if its element is ready: the expiry decision and the offset it is given"),
             ("c06", ["C06.R1", "C06.R2", "C06.R3"], "a region may be deleted only if its element is ready: marker / skip decision"),
             ("c09", ["C09.R1", "C09.R3"], "readiness is read from attributes: the tag grammar"),
             ("c08", ["C08."], "deleted extents are token boundaries: tag recognition"),
